@@ -133,6 +133,8 @@ def gen_opts(rng):
     if rng.random() < 0.2:
         o['full_escape'] = True
     o['dialect'] = rng.choice(['portable', 'perl', 'grep', 'portable'])
+    if rng.random() < 0.08:
+        o['verbose'] = rng.choice([1, 2, 3])          # progress output (to stdout) switched on
     return o
 
 
